@@ -223,7 +223,7 @@ static ev_t EV[MAXEV]; static int nEV;
 static ev_t *ev_new(int type, int op, int opkind) { if (nEV >= MAXEV) return NULL; ev_t *e = &EV[nEV++]; memset(e, 0, sizeof *e); e->type = type; e->op = op; e->opkind = opkind; e->t = mx_now; e->negVer = -1; return e; }
 
 static int g_hist; static int g_verbose;
-static char g_replay[64];
+static char g_replay[96];
 #define TRACE(...) do { if (g_verbose) fprintf(stderr, __VA_ARGS__); } while (0)
 
 /* ---- ticket keys ---- */
@@ -257,11 +257,12 @@ typedef struct { mx_conn *k; int owner; int flightEnc; } live_t;
 #define MAXLIVE 3
 static live_t LV[MAXLIVE];
 
+static int g_force_new;
 static int cred_find(int kind, const unsigned char *b, int n) { for (int i = nCR - 1; i >= 0; i--) if ((kind < 0 || CR[i].kind == kind) && CR[i].len == n && !memcmp(CR[i].b, b, n)) return i; return -1; }
 static int cred_add(ev_t *e, int kind, const unsigned char *b, int n, const unsigned char *sec, int seclen, int ver, int suite, int ems, int srv, int owner, int incomplete)
 {
     if (n <= 0 || n > (int) sizeof CR[0].b || nCR >= MAXCRED) return -1;
-    int i = cred_find(kind, b, n); if (i >= 0) return i;
+    int i = g_force_new ? -1 : cred_find(kind, b, n); if (i >= 0) return i;
     cred_t *c = &CR[nCR]; memset(c, 0, sizeof *c);
     c->kind = kind; c->len = n; memcpy(c->b, b, n); c->seclen = seclen > 64 ? 64 : seclen; memcpy(c->sec, sec, c->seclen); c->secd = dig(sec, c->seclen);
     c->ver = ver; c->suite = suite; c->ems = ems; c->issued = mx_now; c->srv = srv; c->owner = owner; c->op = e->op; c->incomplete = incomplete;
@@ -403,8 +404,8 @@ static void conn_finish(mx_conn *k, int clean)
 }
 
 /* ================= histories: operations and their executor ================= */
-enum { OP_FULL = 0, OP_RESUME, OP_RESUME_OTHER, OP_RESUME_VER, OP_REPLAY, OP_KEEP, OP_FATAL, OP_CLOSE, OP_FILL, OP_KEY, OP_CLOCK, OP_FORGE, OP_ABANDON, OP_RESUME_ABANDONED, OP_N };
-static const char *opname[] = { "full", "resume", "resume-other-server", "resume-other-version", "replay-credential", "keep-open", "fatal-alert", "close", "fill-cache", "ticket-key", "clock", "forge", "abandon", "resume-abandoned" };
+enum { OP_FULL = 0, OP_RESUME, OP_RESUME_OTHER, OP_RESUME_VER, OP_REPLAY, OP_KEEP, OP_FATAL, OP_CLOSE, OP_FILL, OP_KEY, OP_CLOCK, OP_FORGE, OP_ABANDON, OP_RESUME_ABANDONED, OP_PAUSED, OP_N };
+static const char *opname[] = { "full", "resume", "resume-other-server", "resume-other-version", "replay-credential", "keep-open", "fatal-alert", "close", "fill-cache", "ticket-key", "clock", "forge", "abandon", "resume-abandoned", "present-id-of-paused-handshake" };
 typedef struct { int k, c, v, a, b, d; } op_t;
 #define MAXOPS 96
 typedef struct { char name[64]; int nc; ccfg_t cc[MAXCL]; int initk[2][3], ninit[2]; op_t ops[MAXOPS]; int nops; int quiet; } hist_t;
@@ -556,6 +557,32 @@ static int exec_op(hist_t *h, int i)
             memcpy(C->partial, k->c.ssl->sec.masterSecret, 48);
         }
         conn_finish(k, 0); fresh_sid(c); break; }
+    case OP_PAUSED: {
+        /* victim handshake paused after the ServerHello flight (or later, before the server has verified Finished); a second
+           connection presents its session id with an all-zero (or the victim's partial) master secret while it is paused */
+        if (C->c.ver == MX_TLS13) return 0;
+        fresh_sid(c); rq.sid = C->sid; rq.cfg.useTicket = 0; rq.abandonAfter = 1 + o->a % 3; rq.label = "paused-mid-handshake";
+        mx_conn *k = NULL; e = run_hs(i, kind, &rq, 0, &k, NULL);
+        if (k && e && !e->srvComplete && !k->s.dead && !(k->s.ssl->flags & SSL_FLAGS_ERROR) && k->s.ssl->sessionIdLen == 32) {
+            unsigned char z[48]; memset(z, 0, 48);
+            int g = cred_add(e, CK_SID, k->s.ssl->sessionId, 32, z, 48, e->negVer >= 0 ? e->negVer : C->c.ver, k->s.ssl->cipher ? k->s.ssl->cipher->ident : 0, k->s.ssl->extFlags.extended_master_secret, rq.srv, c, 2);
+            if (g >= 0) {
+                hsreq r2; memset(&r2, 0, sizeof r2); cred_t *G = &CR[g];
+                ccfg_t vc = { G->ver, (uint16_t) G->suite, G->ems ? 0 : -1, 0, G->srv };
+                r2.client = (c + 1) % h->nc; r2.srv = G->srv; r2.cfg = cfg_of(&vc); r2.crafted = 1; r2.forged = 1; r2.label = "unfinished-session";
+                sslSessionId_t *sid = craft_sid(G, CK_SID, (o->b & 1) ? 3 : 2, k->c.ssl->sec.masterSecret, &XR, &r2.cliKeyd);
+                if (sid) { r2.sid = sid; run_hs(i, kind, &r2, 1, NULL, NULL); matrixSslDeleteSessionId(sid); }
+                if (o->d & 1) {
+                    /* the victim carries on; if it completes, the session exists from now on */
+                    mx_conn_run(k, NULL, NULL, 300);
+                    ev_t *e3 = ev_new(EV_HS, i, kind);
+                    if (e3) { e3->client = c; e3->srv = rq.srv; e3->cfgver = C->c.ver; e3->label = "paused-handshake-continued"; e3->complete = mx_conn_established(k); e3->srvFatal = srv_fatal(&k->s, &e3->srvAlertDesc);
+                        e3->boundSidn = k->s.ssl->sessionIdLen > 32 ? 32 : k->s.ssl->sessionIdLen; memcpy(e3->boundSid, k->s.ssl->sessionId, e3->boundSidn);
+                        if (e3->complete && k->s.ssl->sessionIdLen == 32) { g_force_new = 1; cred_add(e3, CK_SID, k->s.ssl->sessionId, 32, k->s.ssl->sec.masterSecret, 48, C->c.ver, k->s.ssl->cipher ? k->s.ssl->cipher->ident : 0, k->s.ssl->extFlags.extended_master_secret, rq.srv, c, 0); g_force_new = 0; } }
+                }
+            }
+        }
+        conn_finish(k, k && mx_conn_established(k)); if (!(o->d & 1)) fresh_sid(c); break; }
     default: return 0;
     }
     return 1;
@@ -572,6 +599,7 @@ static int presented_kind(const ev_t *e) { if (e->ppskn) return CK_PSK; if (e->p
 static const char *outcome(const ev_t *e)
 {
     if (e->opkind == OP_FATAL) return e->srvFatal ? "fatal-alert" : "no-alert";
+    if (e->label && !strcmp(e->label, "paused-handshake-continued")) return e->complete ? "completed" : "not-completed";
     if (e->openFail || !e->hasCH) return "no-hello";
     if (!e->sawSH) return "refused";
     if (e->srvResumed) return e->complete ? "resumed" : "resumed-incomplete";
@@ -600,7 +628,7 @@ static void violate(const ev_t *e, const char *clause, int kind, const char *fmt
 static const char *unjustified(const cred_t *m, const ev_t *e)
 {
     long age = e->t - m->issued, life = m->kind == CK_PSK ? LIFE_T13 : LIFE_CACHE;
-    if (m->incomplete) return "resumed-never-completed-session";
+    if (m->incomplete) return m->incomplete == 2 ? "resumed-unfinished-session" : "resumed-never-completed-session";
     if (m->secd != e->srvSecd) return "wrong-secret";
     if (m->kind == CK_SID && m->m_invalid) return m->m_invalid == 2 ? "resumed-after-fatal-alert-on-sibling-connection" : "resumed-after-fatal-alert";
     if (age > life) return (m->kind == CK_SID && age * 1000 > 2147483647L) ? "resumed-long-after-expiry" : "resumed-after-expiry";
@@ -681,9 +709,9 @@ static uint16_t def_suite(int ver) { return ver == MX_TLS13 ? 0x1301 : ver == MX
 static void h_client(int i, int ver, int kind, int ems, int srv) { H.cc[i] = (ccfg_t) { ver, def_suite(ver), ems, kind == CK_TICKET, srv }; }
 
 enum { T_PC = 0, T_TRUNC, T_XORID, T_FOREIGNID, T_STOLEN, T_EXPIRY, T_OVERFLOW, T_FATAL, T_SUITE, T_EMS, T_VERMIS, T_ABANDON, T_TKTXOR, T_TKTLEN, T_TKTNAME, T_KEYOPS, T_FOREIGNSRV,
-       T_13XOR, T_13BINDER, T_13NAME, T_XVER, T_EVICT, T_SIBLING, T_N };
+       T_13XOR, T_13BINDER, T_13NAME, T_XVER, T_EVICT, T_SIBLING, T_PAUSED, T_N };
 static const char *tname[] = { "positive-control", "truncated-id", "edited-id", "foreign-id", "stolen-credential", "expiry", "long-idle", "fatal-alert", "suite-removed", "ems-differs", "version-differs",
-                               "abandoned-handshake", "edited-ticket", "ticket-length", "ticket-key-name", "ticket-key-ops", "foreign-server", "edited-psk-identity", "edited-binder", "psk-key-name", "cross-version-ticket", "eviction", "fatal-alert-sibling-connection" };
+                               "abandoned-handshake", "edited-ticket", "ticket-length", "ticket-key-name", "ticket-key-ops", "foreign-server", "edited-psk-identity", "edited-binder", "psk-key-name", "cross-version-ticket", "eviction", "fatal-alert-sibling-connection", "paused-handshake" };
 typedef struct { int t, ver, kind, var; } sdesc;
 static sdesc SD[600]; static int nSD;
 static void sd_add(int t, int ver, int kind, int var) { if (nSD < 600) SD[nSD++] = (sdesc) { t, ver, kind, var }; }
@@ -704,6 +732,7 @@ static void build_script_index(void)
             for (int w = 0; w < 4; w++) sd_add(T_FATAL, v, kd, w);
         }
         for (int s = 0; s < 4; s++) sd_add(T_ABANDON, v, CK_SID, s);
+        for (int s = 0; s < 6; s++) sd_add(T_PAUSED, v, CK_SID, s);
         for (int k = 0; k < (T ? 8 : 1); k++) sd_add(T_TKTXOR, v, CK_TICKET, k);
         sd_add(T_TKTLEN, v, CK_TICKET, 0); sd_add(T_TKTNAME, v, CK_TICKET, 0); sd_add(T_KEYOPS, v, CK_TICKET, 0);
         sd_add(T_FOREIGNSRV, v, CK_TICKET, 0); sd_add(T_FOREIGNSRV, v, CK_TICKET, 1);
@@ -772,6 +801,7 @@ static void build_script(const sdesc *d, vf_rng *g)
     case T_SIBLING: OPA(OP_FULL, 0, 0, 0, 0, 0); OPA(OP_KEEP, 0, 0, 0, 0, 0);
         if (d->var) { OPA(OP_REPLAY, 1, 0, 0, 1, 0); } else { OPA(OP_REPLAY, 1, 0, 0, 0, 0); OPA(OP_FORGE, 1, 0, MU_SUITE_SWAP, 0, 0); }
         OPA(OP_CLOSE, 0, 0, 0, 0, 0); OPA(OP_REPLAY, 1, 0, 0, 0, 0); break;
+    case T_PAUSED: OPA(OP_PAUSED, 0, 0, d->var % 3, 0, d->var / 3); OPA(OP_RESUME, 0, 0, 0, 0, 0); OPA(OP_PAUSED, 0, 0, d->var % 3, 1, d->var / 3); OPA(OP_RESUME, 0, 0, 0, 0, 0); break;
     case T_EVICT: OPA(OP_FULL, 0, 0, 0, 0, 0); OPA(OP_FILL, 0, 0, 31, 0, 0); OPA(OP_REPLAY, 0, 0, 0, 0, 0); OPA(OP_FILL, 0, 0, 2, 0, 0); OPA(OP_REPLAY, 0, 0, 0, 0, 0); OPA(OP_FULL, 1, 0, 0, 0, 0); OPA(OP_REPLAY, 0, 0, 0, 0, 0);
         OPA(OP_FORGE, 0, 1, MU_SID_TRUNC, 3, 0); OPA(OP_KEEP, 1, 0, 0, 0, 0); OPA(OP_FILL, 0, 0, 34, 0, 0); OPA(OP_REPLAY, 1, 1, 0, 0, 0); break;
     }
@@ -809,7 +839,8 @@ static void build_random(vf_rng *g)
         else if (w < 80) OPA(OP_CLOSE, c, 0, 0, 0, 0);
         else if (w < 82) OPA(OP_FILL, c, 0, 3 + a % 36, 0, 0);
         else if (w < 88) OPA(OP_KEY, c, 0, vf_below(g, 100) < 70 ? 0 : 1, b % 4, d % NPOOL);
-        else if (w < 91) OPA(OP_ABANDON, c, 0, a % 4, 0, 0);
+        else if (w < 90) OPA(OP_ABANDON, c, 0, a % 4, 0, 0);
+        else if (w < 92) OPA(OP_PAUSED, c, 0, a % 3, b & 1, d & 1);
         else if (w < 94) OPA(OP_RESUME_ABANDONED, c, 0, a & 1, 0, 0);
         else if (w < 97) OPA(OP_RESUME_OTHER, c, 0, 0, 0, 0);
         else OPA(OP_RESUME_VER, c, 0, a % MX_NVER, 0, 0);
@@ -821,7 +852,7 @@ static long NRANDOM;
 static void run_history(void *arg)
 {
     int n = *(int *) arg; vf_rng g; g_hist = n;
-    snprintf(g_replay, sizeof g_replay, "hist=%d,seed=%llu", n, (unsigned long long) vf_seed);
+    snprintf(g_replay, sizeof g_replay, "hist=%d,seed=%llu,tier=%s", n, (unsigned long long) vf_seed, vf_thorough ? "thorough" : "quick");
     vf_rng_init(&g, vf_seed, 0xC14 + (uint64_t) n * 7919); vf_rng_init(&XR, vf_seed ^ 0x5eed, n);
     mx_entropy_seed(vf_seed * 1000003ULL + (uint64_t) n); T0 = mx_now; nCR = nEV = 0;
     for (int i = 0; i < NPOOL; i++) { vf_fill(&g, POOL[i].name, 16); vf_fill(&g, POOL[i].sym, 32); vf_fill(&g, POOL[i].mac, 32); POOL[i].symlen = 32; }
@@ -855,7 +886,7 @@ int main(int argc, char **argv)
 {
     vf_init(argc, argv);
     int only = -1;
-    if (vf_case) { const char *p = strstr(vf_case, "hist="), *q = strstr(vf_case, "seed="); if (p) only = atoi(p + 5); if (q) vf_seed = strtoull(q + 5, NULL, 0); if (only < 0) { fprintf(stderr, "bad --case, want hist=<n>[,seed=<s>]\n"); return 2; } }
+    if (vf_case) { const char *p = strstr(vf_case, "hist="), *q = strstr(vf_case, "seed="); if (p) only = atoi(p + 5); if (q) vf_seed = strtoull(q + 5, NULL, 0); if (strstr(vf_case, "tier=thorough")) vf_thorough = 1; else if (strstr(vf_case, "tier=quick")) vf_thorough = 0; if (only < 0) { fprintf(stderr, "bad --case, want hist=<n>[,seed=<s>][,tier=quick|thorough]\n"); return 2; } }
     g_verbose = vf_verbose;
     mx_global_init(); mx_keys_load();
     KS[0] = mx_keys.srv_rsa; KS[1] = mx_mkkeys(MX_TK "RSA/2048_RSA.pem", MX_TK "RSA/2048_RSA_KEY.pem", mx_ca_both);
@@ -864,7 +895,7 @@ int main(int argc, char **argv)
     long total = nSD + NRANDOM;
     for (long n = 0; n < total; n++) {
         if (only >= 0 ? n != only : !vf_mine(n)) continue;
-        int hn = (int) n; char spec[64]; snprintf(spec, sizeof spec, "hist=%d,seed=%llu", hn, (unsigned long long) vf_seed);
+        int hn = (int) n; char spec[96]; snprintf(spec, sizeof spec, "hist=%d,seed=%llu,tier=%s", hn, (unsigned long long) vf_seed, vf_thorough ? "thorough" : "quick");
         vf_fork_case(run_history, &hn, "c14-history", spec, 300);
     }
     matrixSslDeleteKeys(KS[1]); mx_keys_free(); matrixSslClose();
